@@ -384,6 +384,10 @@ add("C21", "fixed", "missed-unknown-tag", "tags named like the pseudo entries of
 add("C04", "fixed", "not-idempotent:raw", "a raw block was serialised without its raw / endraw wrapper, so markup inside the body became live: the body rendered differently, did not parse, or parsed to something that serialised differently again",
     [c04("{% if a %}{% raw %}{% if x %}{% endraw %}{% endif %}{% else %}{% if b %}y{% endif %}{% endif %}"), c04("{% raw %}{% assign x=1 %}{{x}}{% endraw %}"), c04("{% raw %}{{ a }}{% endraw %}!"), c04("{% raw %}{% %}{% endraw %}")], "a7e1de3")
 
+add("C07", "fixed", "namespace-exceeds-limit:refused-value-kept", "RenderContext.assign stored a value before measuring the namespace and left it there when it raised LocalNamespaceLimitError: in lax / warn mode "
+    "the render went on and completed holding (and printing) more than local_namespace_limit allows",
+    [{"source": "{% assign a = big %}[{{ a | size }}]{% assign b = 'x' %}", "partials": {}, "data": V.enc({"big": "x" * 300}), "async": False}], "771239d")
+
 if __name__ == "__main__":
     # further entries are appended by tools/mkfindings.py from triaged replay files and kept in findings_extra.json
     extra_path = os.path.join(VERIF, "tools", "findings_extra.json")
